@@ -72,7 +72,7 @@ theorem chan_sendBlocking (cfg : Cfg) (s : State) (t : Tid) (e : BufElem) (a b :
   · simp [chan, h2]
   · simp [chan]
 
-theorem sendBlocking_app (cfg : Cfg) (s : State) (t : Tid) (e : BufElem) (a b : CPc) :
+theorem sendBlocking_app_lv (cfg : Cfg) (s : State) (t : Tid) (e : BufElem) (a b : CPc) :
     (sendBlocking cfg s t e a b).app = s.app := by
   unfold sendBlocking; split <;> rfl
 theorem sendBlocking_closedMarkers (cfg : Cfg) (s : State) (t : Tid) (e : BufElem) (a b : CPc) :
@@ -142,7 +142,7 @@ theorem mcount_step {cfg : Cfg} {s s' : State} {a : Action} (hh : Handshake s)
         subst he
         unfold stDelSend
         exact Or.inl ⟨mcount_chan_item (chan_sendBlocking ..) (sendBlocking_closedMarkers ..)
-          (sendBlocking_app ..), (sendBlocking_nextMarker ..)⟩
+          (sendBlocking_app_lv ..), (sendBlocking_nextMarker ..)⟩
       | waitSend hpc he =>
         subst he
         unfold stWaitSend
@@ -150,7 +150,7 @@ theorem mcount_step {cfg : Cfg} {s s' : State} {a : Action} (hh : Handshake s)
             (.marker s.nextMarker) (.waitRecv s.nextMarker) (.waitBlocked s.nextMarker)) id =
             mcount s id + (if s.nextMarker = id then 1 else 0) := by
           intro id
-          simp only [mcount, chan_sendBlocking, sendBlocking_app, sendBlocking_closedMarkers, markers_append,
+          simp only [mcount, chan_sendBlocking, sendBlocking_app_lv, sendBlocking_closedMarkers, markers_append,
             markers, List.count_append, List.count_cons, List.count_nil]
           have : chan { s with nextMarker := s.nextMarker + 1 } = chan s := rfl
           rw [this]
